@@ -43,6 +43,21 @@ Fixpoint interp_w (sizes : list nat) (ws : list (nat -> Q)) (K : tens) : Q :=
 Definition hyper_unit (tensor_input clip : bool) (sizes : list nat) (K : tens) (x : list Q) : Q :=
   interp_w sizes (hyper_weights tensor_input clip sizes x) K.
 
+(* The same computation as the code literally performs it.
+   batch_outer_operation: result = w_0; for every further weight vector w:
+     result = reshape(result[..., :, None] * w[..., None, :])   (tf.multiply, or tf.matmul from the 8th on)
+   i.e. result'[j * |w| + k] = result[j] * w[k]; then the product with the kernel
+   column (matmul for units = 1, reduce_sum(weights * transpose(kernel)) else).
+   Proofs/LatticeOuter.v shows hyper_unit_lit == hyper_unit on the row-major kernel. *)
+Definition outer_step (acc w : list Q) : list Q := flat_map (fun a => map (Qmult a) w) acc.
+Definition batch_outer (ws : list (list Q)) : list Q :=
+  match ws with [] => [] | w0 :: rest => fold_left outer_step rest w0 end.
+Definition weight_lists (sizes : list nat) (ws : list (nat -> Q)) : list (list Q) :=
+  map2 (fun s w => map w (seq 0 s)) sizes ws.
+Definition dot (a b : list Q) : Q := rsum (map2 Qmult a b).
+Definition hyper_unit_lit (tensor_input clip : bool) (sizes : list nat) (Kcol : list Q) (x : list Q) : Q :=
+  dot (batch_outer (weight_lists sizes (hyper_weights tensor_input clip sizes x))) Kcol.
+
 (* ---------- simplex ---------- *)
 Definition prodn (l : list nat) : nat := fold_right Nat.mul 1%nat l.
 (* np.cumprod([1] + sizes[::-1][:-1])[::-1] : stride of dimension d = product of the later sizes *)
@@ -100,8 +115,8 @@ Definition unit_fn (sc : scheme) (tensor_input clip : bool) (units : nat) (sizes
            (K : list (list Q)) (u : nat) : list Q -> Q :=
   match sc with
   | Hypercube =>
-      let T := of_list sizes (column u K) in
-      fun x => hyper_unit tensor_input clip sizes T x
+      let Kcol := column u K in
+      fun x => hyper_unit_lit tensor_input clip sizes Kcol x
   | Simplex =>
       let flat := concat K in
       let g := if (units =? 1)%nat then fun i => nthZ i flat
